@@ -26,6 +26,7 @@ type vCluster struct {
 	alive   map[string]bool // a heartbeat status exists for the node
 	stream  chan *types.NodeStatus
 	downed  map[string]int // SetNode(WorkloadsDown) calls per node
+	slow    bool           // SetNode calls outlast the global timeout
 	failSet map[string]bool
 }
 
@@ -51,6 +52,14 @@ func (c *vCluster) SetNode(_ context.Context, opts *types.SetNodeOptions) (*type
 	if opts.WorkloadsDown {
 		c.downed[opts.Nodename]++
 	}
+	if c.slow {
+		// this call takes longer than the configured global timeout: every deadline armed so far elapses
+		if vIsSymbolic() {
+			vExpireTimeouts()
+		} else {
+			time.Sleep(100 * time.Millisecond) // natively: really outlast the 30 ms timeout below
+		}
+	}
 	return &types.Node{NodeMeta: types.NodeMeta{Name: opts.Nodename}}, nil
 }
 
@@ -73,8 +82,12 @@ func VerifSelfmon(arg string) {
 	for _, n := range names {
 		cl.alive[n] = true
 	}
+	cl.slow = vBool("set_node_outlasts_the_global_timeout")
 	w := &NodeStatusWatcher{ID: 1, cluster: cl, store: &vStore{expiry: make(chan struct{})}}
 	w.config.GlobalTimeout = time.Minute
+	if !vIsSymbolic() {
+		w.config.GlobalTimeout = 30 * time.Millisecond
+	}
 	ctx, cancel := context.WithCancel(context.Background())
 	defer cancel()
 
@@ -130,7 +143,7 @@ func VerifSelfmon(arg string) {
 	}
 	vDrain()
 	if !vIsSymbolic() {
-		time.Sleep(200 * time.Millisecond)
+		time.Sleep(600 * time.Millisecond)
 	}
 	for _, n := range names {
 		if lapsedAfterStart[n] {
